@@ -309,6 +309,151 @@ theorem toSmp4_of (v : Bytes) (a b c : Nat) (r : Bytes)
     (h : extractMPIs v = some ([a, b, c], r)) : toSmp4 v = some ⟨b, c, a⟩ := by
   unfold toSmp4; rw [h]
 
+/-! repaired code: the SMP payload parsers accept exactly their number of MPIs (6 / 11 / 8 / 3) — a TLV
+    that declares and carries one MPI more or fewer (or any other number) is rejected, for every list -/
+
+theorem toSmp1_wrong_count (v : Bytes) (mpis : List Nat) (r : Bytes)
+    (h : extractMPIs v = some (mpis, r)) (hl : mpis.length ≠ 6) : toSmp1 v = none := by
+  unfold toSmp1
+  split
+  · rename_i heq
+    rw [h] at heq
+    simp only [Option.some.injEq, Prod.mk.injEq] at heq
+    rw [heq.1] at hl
+    exact absurd rfl hl
+  · rfl
+
+theorem toSmp2_wrong_count (v : Bytes) (mpis : List Nat) (r : Bytes)
+    (h : extractMPIs v = some (mpis, r)) (hl : mpis.length ≠ 11) : toSmp2 v = none := by
+  unfold toSmp2
+  split
+  · rename_i heq
+    rw [h] at heq
+    simp only [Option.some.injEq, Prod.mk.injEq] at heq
+    rw [heq.1] at hl
+    exact absurd rfl hl
+  · rfl
+
+theorem toSmp3_wrong_count (v : Bytes) (mpis : List Nat) (r : Bytes)
+    (h : extractMPIs v = some (mpis, r)) (hl : mpis.length ≠ 8) : toSmp3 v = none := by
+  unfold toSmp3
+  split
+  · rename_i heq
+    rw [h] at heq
+    simp only [Option.some.injEq, Prod.mk.injEq] at heq
+    rw [heq.1] at hl
+    exact absurd rfl hl
+  · rfl
+
+theorem toSmp4_wrong_count (v : Bytes) (mpis : List Nat) (r : Bytes)
+    (h : extractMPIs v = some (mpis, r)) (hl : mpis.length ≠ 3) : toSmp4 v = none := by
+  unfold toSmp4
+  split
+  · rename_i heq
+    rw [h] at heq
+    simp only [Option.some.injEq, Prod.mk.injEq] at heq
+    rw [heq.1] at hl
+    exact absurd rfl hl
+  · rfl
+
+/-- a payload whose MPI list cannot be read at all is rejected by all four parsers -/
+theorem toSmp_unparsable (v : Bytes) (h : extractMPIs v = none) :
+    toSmp1 v = none ∧ toSmp2 v = none ∧ toSmp3 v = none ∧ toSmp4 v = none := by
+  unfold toSmp1 toSmp2 toSmp3 toSmp4
+  rw [h]
+  exact ⟨rfl, rfl, rfl, rfl⟩
+
+/-- exact acceptance condition of the four parsers: the MPI list can be read and has exactly 6 / 11 / 8 / 3
+    elements (whatever follows the list is ignored, as in the Go code) -/
+theorem toSmp1_isSome_iff (v : Bytes) :
+    (toSmp1 v).isSome = true ↔ ∃ mpis r, extractMPIs v = some (mpis, r) ∧ mpis.length = 6 := by
+  constructor
+  · intro hs
+    cases h : extractMPIs v with
+    | none => rw [(toSmp_unparsable v h).1] at hs; cases hs
+    | some p =>
+      obtain ⟨mpis, r⟩ := p
+      refine ⟨mpis, r, rfl, Classical.byContradiction fun hl => ?_⟩
+      rw [toSmp1_wrong_count v mpis r h hl] at hs; cases hs
+  · rintro ⟨mpis, r, h, hl⟩
+    match mpis, hl with
+    | [a, b, c, d, e, f], _ => rw [toSmp1_of v a b c d e f r h]; rfl
+
+theorem toSmp2_isSome_iff (v : Bytes) :
+    (toSmp2 v).isSome = true ↔ ∃ mpis r, extractMPIs v = some (mpis, r) ∧ mpis.length = 11 := by
+  constructor
+  · intro hs
+    cases h : extractMPIs v with
+    | none => rw [(toSmp_unparsable v h).2.1] at hs; cases hs
+    | some p =>
+      obtain ⟨mpis, r⟩ := p
+      refine ⟨mpis, r, rfl, Classical.byContradiction fun hl => ?_⟩
+      rw [toSmp2_wrong_count v mpis r h hl] at hs; cases hs
+  · rintro ⟨mpis, r, h, hl⟩
+    match mpis, hl with
+    | [a, b, c, d, e, f, g, h', i, j, k], _ => rw [toSmp2_of v a b c d e f g h' i j k r h]; rfl
+
+theorem toSmp3_isSome_iff (v : Bytes) :
+    (toSmp3 v).isSome = true ↔ ∃ mpis r, extractMPIs v = some (mpis, r) ∧ mpis.length = 8 := by
+  constructor
+  · intro hs
+    cases h : extractMPIs v with
+    | none => rw [(toSmp_unparsable v h).2.2.1] at hs; cases hs
+    | some p =>
+      obtain ⟨mpis, r⟩ := p
+      refine ⟨mpis, r, rfl, Classical.byContradiction fun hl => ?_⟩
+      rw [toSmp3_wrong_count v mpis r h hl] at hs; cases hs
+  · rintro ⟨mpis, r, h, hl⟩
+    match mpis, hl with
+    | [a, b, c, d, e, f, g, h'], _ => rw [toSmp3_of v a b c d e f g h' r h]; rfl
+
+theorem toSmp4_isSome_iff (v : Bytes) :
+    (toSmp4 v).isSome = true ↔ ∃ mpis r, extractMPIs v = some (mpis, r) ∧ mpis.length = 3 := by
+  constructor
+  · intro hs
+    cases h : extractMPIs v with
+    | none => rw [(toSmp_unparsable v h).2.2.2] at hs; cases hs
+    | some p =>
+      obtain ⟨mpis, r⟩ := p
+      refine ⟨mpis, r, rfl, Classical.byContradiction fun hl => ?_⟩
+      rw [toSmp4_wrong_count v mpis r h hl] at hs; cases hs
+  · rintro ⟨mpis, r, h, hl⟩
+    match mpis, hl with
+    | [a, b, c], _ => rw [toSmp4_of v a b c r h]; rfl
+
+/-- the same for the payload the sender's serialiser `genSMPTLV` writes for an arbitrary MPI list (any TLV
+    type): with a length other than 6 / 11 / 8 / 3 the corresponding parser returns `none` -/
+theorem toSmp_genSMPTLV_wrong_count (tp : Nat) (mpis : List Nat) (h : mpisFit mpis)
+    (hl : mpis.length < 4294967296) :
+    (mpis.length ≠ 6 → toSmp1 (genSMPTLV tp mpis).value = none) ∧
+    (mpis.length ≠ 11 → toSmp2 (genSMPTLV tp mpis).value = none) ∧
+    (mpis.length ≠ 8 → toSmp3 (genSMPTLV tp mpis).value = none) ∧
+    (mpis.length ≠ 3 → toSmp4 (genSMPTLV tp mpis).value = none) := by
+  have he := extractMPIs_genSMPTLV tp mpis h hl
+  exact ⟨toSmp1_wrong_count _ _ _ he, toSmp2_wrong_count _ _ _ he, toSmp3_wrong_count _ _ _ he,
+    toSmp4_wrong_count _ _ _ he⟩
+
+/-- small numbers fit -/
+theorem mpisFit_of_lt (ns : List Nat) (h : ∀ n ∈ ns, n < 256 ^ 8) : mpisFit ns := by
+  intro n hn
+  unfold natToBytes
+  rw [List.length_reverse]
+  have := natToBytesLE_length_le 8 n (h n hn)
+  omega
+
+/-- the hypotheses are satisfiable: a well-formed SMP1 payload with a seventh MPI appended, and one with the
+    sixth dropped, are both refused by `toSmp1` (before the repair the first was accepted); likewise SMP4 -/
+example : toSmp1 (genSMPTLV tlvTypeSMP1 [1, 2, 3, 4, 5, 6, 7]).value = none ∧
+    toSmp1 (genSMPTLV tlvTypeSMP1 [1, 2, 3, 4, 5]).value = none ∧
+    toSmp4 (genSMPTLV tlvTypeSMP4 [1, 2, 3, 4]).value = none ∧
+    toSmp4 (genSMPTLV tlvTypeSMP4 [1, 2]).value = none := by
+  have fit : ∀ ns : List Nat, (∀ n ∈ ns, n < 8) → mpisFit ns :=
+    fun ns h => mpisFit_of_lt ns (fun n hn => Nat.lt_trans (h n hn) (by decide))
+  refine ⟨(toSmp_genSMPTLV_wrong_count _ _ (fit _ (by decide)) (by decide)).1 (by decide),
+    (toSmp_genSMPTLV_wrong_count _ _ (fit _ (by decide)) (by decide)).1 (by decide),
+    (toSmp_genSMPTLV_wrong_count _ _ (fit _ (by decide)) (by decide)).2.2.2 (by decide),
+    (toSmp_genSMPTLV_wrong_count _ _ (fit _ (by decide)) (by decide)).2.2.2 (by decide)⟩
+
 theorem smp1_roundtrip (m : Smp1Msg) (hq : m.hasQuestion = false) (hq2 : m.question = [])
     (h : mpisFit [m.g2a, m.c2, m.d2, m.g3a, m.c3, m.d3]) : toSmp1 m.tlv.value = some m := by
   have := toSmp1_of _ _ _ _ _ _ _ _ (extractMPIs_genSMPTLV tlvTypeSMP1 _ h (by simp))
